@@ -186,6 +186,8 @@ def run(chk):
     rng = chk.rng
     translate_tables.translate(chk)     # the concrete theorems are stated over the tables regenerated from /repo
     chk.lean_build(['PeptVerif.Props.C12', 'PeptVerif.Props.C12Concrete', 'PeptVerif.Props.C12Fragment'], DRV)
+    E.optional_module(chk, 'PeptVerif.Props.C12LabelBridge',
+                      'label-path bridge to Mass.mass; rests on C04 Lemmas/FragmentLabel.lean over C03 Model/CompCalc.lean')
     quirks = E.probe_quirks()
     chk.notes.append(f'composition-path behaviours shown by the implementation (owned by C02/C03): '
                      f'deltaIgnoresMult={quirks[0]} labileDeltaAnyIon={quirks[1]}')
